@@ -324,6 +324,9 @@ func Unwrap(v ssa.Value) ssa.Value {
 
 // BaseName is fn.Name() without the type-argument suffix of an instantiation.
 func BaseName(fn *ssa.Function) string {
+	if s, ok := canonShort[fn]; ok {
+		return s
+	}
 	if fn == nil {
 		return ""
 	}
